@@ -41,7 +41,7 @@ func init() {
 			"'tree unmodified' is decided by a structural reflection snapshot taken by the monitor before the call",
 			"the order of ResolvePackage calls follows map iteration, so fail-at-k hits a different package from run to run; every k is covered, not every (k, package) pair",
 		},
-		Required: map[string]int{"fault_kinds": 10},
+		Required: map[string]int{"fault_kinds": 11},
 	})
 }
 
@@ -399,6 +399,9 @@ func c17Decorate(c *fw.Ctx, id, name string, src []byte) {
 	}
 	// (b2') single declarations decorated on their own (DecorateNode on something that is not a file)
 	c17Isolated(c, id, name, src)
+	// (b2'') a package built by go/ast with an importer whose package objects expose the imported
+	// package's scope (objects with declarations): those are decorated through Package.Imports
+	c17ImportsPhase(c, id, name, src)
 	// (b3) the same file read from a directory: Decorator.ParseDir with a failing identifier resolver,
 	// and with a failing package-name resolver inside the syntax-only resolver
 	if strings.HasSuffix(name, ".go") && !strings.HasSuffix(name, "_test.go") && len(src) < 40000 {
@@ -530,6 +533,106 @@ func c17Isolated(c *fw.Ctx, id, name string, src []byte) {
 				c.Nontrivial(cid)
 			})
 		}
+	}
+}
+
+// c17ImportsPhase decorates an *ast.Package whose Imports map leads to declarations of another
+// package (as a source-based importer builds them) and injects identifier-resolver failures.
+func c17ImportsPhase(c *fw.Ctx, id, name string, src []byte) {
+	mk := func() (*token.FileSet, *ast.Package) {
+		fset := token.NewFileSet()
+		// (the second import is not referred to by the code: its package object is first met when
+		// the Imports map is decorated)
+		extra := "package zz\n\nimport \"example.com/lib\"\nimport _ \"example.com/other\"\n\nvar zzExtra = lib.Upper(\"x\")\n\nfunc zzUse() string { return zzExtra + lib.Twice(\"y\") }\n"
+		bf, err := parser.ParseFile(fset, "zz_extra.go", extra, parser.ParseComments)
+		if err != nil {
+			return nil, nil
+		}
+		libSrc := "package lib\n\nimport \"unicode\"\n\nfunc Upper(s string) string { return string(unicode.ToUpper(rune(s[0]))) }\n\nfunc Twice(s string) string { return s + s + string(unicode.MaxRune) }\n\nvar Table = unicode.Latin\n"
+		lf, err := parser.ParseFile(fset, "lib.go", libSrc, parser.ParseComments)
+		if err != nil {
+			return nil, nil
+		}
+		importer := func(imports map[string]*ast.Object, path string) (*ast.Object, error) {
+			if o := imports[path]; o != nil {
+				return o, nil
+			}
+			po := ast.NewObj(ast.Pkg, "lib")
+			sc := ast.NewScope(nil)
+			decls := lf.Decls
+			if strings.HasSuffix(path, "other") {
+				of, err := parser.ParseFile(fset, "other.go", strings.Replace(libSrc, "package lib", "package other", 1), parser.ParseComments)
+				if err != nil {
+					return nil, err
+				}
+				decls = of.Decls
+			}
+			for _, d := range decls {
+				switch v := d.(type) {
+				case *ast.FuncDecl:
+					o := ast.NewObj(ast.Fun, v.Name.Name)
+					o.Decl = v
+					sc.Insert(o)
+				case *ast.GenDecl:
+					for _, sp := range v.Specs {
+						if vs, ok := sp.(*ast.ValueSpec); ok {
+							o := ast.NewObj(ast.Var, vs.Names[0].Name)
+							o.Decl = vs
+							sc.Insert(o)
+						}
+					}
+				}
+			}
+			po.Data = sc
+			imports[path] = po
+			return po, nil
+		}
+		pkg, _ := ast.NewPackage(fset, map[string]*ast.File{"zz_extra.go": bf}, importer, nil)
+		return fset, pkg
+	}
+	if !strings.HasSuffix(id, "0.go") && !strings.HasSuffix(id, "1.go") && !strings.HasSuffix(id, "e.go") && !strings.HasSuffix(id, "s.go") {
+		return // the package is the same for every file: a sample of the files is enough
+	}
+	table := c17Table{"lib": "example.com/lib", "unicode": "unicode"}
+	fsetP, pkgP := mk()
+	if pkgP == nil || len(pkgP.Imports) == 0 {
+		return
+	}
+	probe := &failingIdentResolver{inner: table}
+	var ref dst.Node
+	var refErr error
+	if sig, _ := fw.Try(func() { ref, refErr = decorator.NewDecoratorWithImports(fsetP, "example.com/self", probe).DecorateNode(pkgP) }); sig != "" || refErr != nil || refl.IsNil(ref) {
+		c.Count("inconclusive_clean_imports_phase_fails", 1)
+		return
+	}
+	K := probe.calls
+	for k := 1; k <= K; k++ {
+		cid := fmt.Sprintf("%s/imports-phase-fail@%d", id, k)
+		c.Case(cid, func() {
+			c.Observe("fault_kinds", "ident-resolver-in-package-imports")
+			fset, pkg := mk()
+			if pkg == nil {
+				return
+			}
+			fr := &failingIdentResolver{inner: table, failAt: k}
+			var out dst.Node
+			var err error
+			if sig, detail := fw.Try(func() { out, err = decorator.NewDecoratorWithImports(fset, "example.com/self", fr).DecorateNode(pkg) }); sig != "" {
+				c.Violate("panic-on-fault", sig, cid+"\n"+detail, string(src))
+				return
+			}
+			if fr.calls < k {
+				c.Count("fault_point_not_reached", 1)
+				return
+			}
+			c17Verdict(c, cid, "decorate-package-imports", err, !refl.IsNil(out), 0, string(src))
+			out2, err2 := decorator.NewDecoratorWithImports(fset, "example.com/self", table).DecorateNode(pkg)
+			if err2 != nil || refl.IsNil(out2) {
+				c.Violate("retry-fails", "retry-fails:decorate-package-imports", fmt.Sprintf("%s: %v", cid, err2), string(src))
+				return
+			}
+			c.Nontrivial(cid)
+		})
 	}
 }
 
